@@ -18,9 +18,9 @@ statement in a fresh child scope of one base environment, and the *outcome class
             f(_, b, c)(a) | f(a, _, c)(b) | f(a, b, _)(c) | f(_, _, c)(a, b) | f(_, b, _)(a, c) | f(..._)([a, b, c])
 
 fuel / depth / crash / timeout / panic on any form make the tuple inconclusive (or excluded when an
-argument is an infinite stream or a huge number), never a violation.  A disagreement seen in the cheap
-child-scope pass is re-run with every form in a completely fresh environment and only reported when
-it persists.
+argument is an infinite stream or a huge number), never a violation.  The plain call is evaluated first;
+only tuples on which it returns or raises get the other forms.  A disagreement seen in the batched pass is
+re-run alone in a newly built base environment and only reported when it persists.
 """
 import json
 import time
@@ -45,10 +45,12 @@ ASSUMPTIONS = [
     "`f(b)(a)` and `x f= b` are compared with f(a, b) only when f(a, b) returned a value (and f(b) is a function)",
 ]
 PLAN = {
-    "quick": {"pairs": "quick", "extra_pairs": 30, "triples": 16, "parts": 4, "cpu": 1.0, "cpu_hostile": 0.3,
-              "max_timeouts": 12, "shards": 128},
-    "thorough": {"pairs": "all", "extra_pairs": 0, "triples": 400, "parts": 16, "cpu": 3.0, "cpu_hostile": 0.3,
-                 "max_timeouts": 25, "shards": 512},
+    "quick": {"pairs": "quick", "extra_pairs": 30, "triples": 16, "parts": 4, "cpu": 1.0, "cpu_hostile": 0.2,
+              "max_timeouts": 8, "unit_wall": 45,
+              "shards": 128},
+    "thorough": {"pairs": "all", "extra_pairs": 0, "triples": 400, "parts": 16, "cpu": 3.0, "cpu_hostile": 0.2,
+                 "max_timeouts": 20, "unit_wall": 300,
+                 "shards": 512},
 }
 REG = dict(level="exploration", min_nontrivial=20000, max_inconc=0.02,
            technique="differential runtime monitor: every application form of the same (callable, arguments) evaluated in "
@@ -70,6 +72,7 @@ FUNC_KINDS = ("func", "type")
 ZERO = {"i0", "b0", "f0", "fm0"}
 # builtins that emit a list in the iteration order of an internal hash map (DESIGN Appendix A)
 HASH_ORDER = {"group_all"}
+SMALL_NUMS = [p[0] for p in pool.POOL if p[2] in ("int", "rational", "float", "complex") and "huge" not in p[3]]
 
 # ---------------------------------------------------------------- callables
 
@@ -79,7 +82,8 @@ USER_PRELUDE = [
     "u3 := \\x, y, z -> [x, y, z]",
     "u2sub := \\x, y -> x - y",
     "uvar := \\...xs -> xs",
-    "udef := \\x, y: 5 -> [x, y]",
+    "udef := \\x, y = 5 -> [x, y]",
+    "struct Bar (ba, bb = 9)",
     "uout := \\x, y -> (print(\"called\"); [y, x])",
     "ucap := (\\k -> \\x, y -> [k, x, y])(42)",
     "uret := \\x, y -> (if (x) return [y]; [x])",
@@ -123,6 +127,7 @@ USER_CALLABLES = [
     ("- on len", "ona", None, (1, 2, 3)), ("closure2 on str", "onb", None, (1, 2)),
     ("abs *** str", "para", None, (1, 2, 3)), ("+ &&& -", "fana", None, (1, 2, 3)), ("closure2 &&& variadic", "fanb", None, (1, 2)),
     ("struct-constructor", "Foo", None, (1, 2, 3)), ("struct-field-a", "fa", None, (1, 2)), ("struct-field-b", "fb", None, (1, 2)),
+    ("struct-constructor-default", "Bar", None, (1, 2, 3)),
     ("memoize-cold(closure1)", "mm", "mm := memf(u1); ", (1, 2)),
     ("memoize-cold(closure2)", "mm", "mm := memf(u2); ", (1, 2, 3)),
     ("memoize-cold(closure3)", "mm", "mm := memf(u3); ", (2, 3)),
@@ -288,7 +293,7 @@ def same(e1, e2, dicty):
     n1, n2 = _strip(v1), _strip(v2)
     if n1 == n2:
         return True, False
-    if dicty and _multiset(n1) == _multiset(n2):
+    if dicty() and _multiset(n1) == _multiset(n2):
         return True, True
     return False, False
 
@@ -329,7 +334,14 @@ def judge(c, args, forms, evs):
             vd.status = "bad"
             vd.why = why
             return vd
-    dicty = c.tok in HASH_ORDER or any(pool.BY_NAME[a][2] == "dict" for a in args) or any(_has_dict(e.get("v")) for e in evs if e.get("o") == "ok")
+    memo = []
+
+    def dicty():
+        # is hash iteration order involved?  (only consulted when two values differ)
+        if not memo:
+            memo.append(c.tok in HASH_ORDER or any(pool.BY_NAME[a][2] == "dict" for a in args)
+                        or any(_has_dict(e.get("v")) for e in evs if e.get("o") == "ok"))
+        return memo[0]
     base_s, base_e = byname[BASE[ar]]
     vd.ok_base = base_e.get("o") == "ok"
     sym = [n for n, _ in FORMS[ar]]
@@ -384,9 +396,10 @@ class Worker(core.Worker):
             if nl >= 0:
                 line, self.buf = self.buf[:nl], self.buf[nl + 1:]
                 return line
-            r, _, _ = core.select.select([self.p.stdout], [], [], 0.5)
+            r, _, _ = core.select.select([self.p.stdout], [], [], 0.5 if budget >= 1.0 else 0.1)
             if r:
-                chunk = core.os.read(self.p.stdout.fileno(), 1 << 20)
+                # a pipe holds 64 KiB: asking for more only costs a large temporary buffer per read
+                chunk = core.os.read(self.p.stdout.fileno(), 1 << 16)
                 if not chunk:
                     return ("dead", None)
                 self.buf += chunk
@@ -467,8 +480,10 @@ def klass(c, t):
     return 0
 
 
-def process(sh, w, c, tuples, isfn, stats, plan):
-    """Evaluate all forms of every tuple for callable c.  Returns {args: base event} for arity-1 bookkeeping."""
+def process(sh, w, c, tuples, isfn, stats, plan, keep_raising=None):
+    """Evaluate all forms of every tuple for callable c.  Returns {args: base event} for arity-1 bookkeeping.
+    keep_raising=N: tuples are candidates; those whose plain call raises are dropped (not counted as cases)
+    once N of them have been kept."""
     base_evs = {}
     if not tuples:
         return base_evs
@@ -484,12 +499,17 @@ def process(sh, w, c, tuples, isfn, stats, plan):
             w.cpu_budget = cpu
             for i in range(0, len(part), bsz):
                 chunk = part[i:i + bsz]
+                if time.time() > stats["deadline"]:
+                    sh.excluded += len(chunk)
+                    sh.count("excluded:unit-time-budget-exhausted", len(chunk))
+                    continue
                 if kl and stats["timeouts"] >= plan["max_timeouts"]:
                     # bound of the workload: this unit already spent its watchdog budget on hostile arguments
                     sh.excluded += len(chunk)
                     sh.count("excluded:hostile-arg-skipped-after-%d-timeouts" % plan["max_timeouts"], len(chunk))
                     continue
                 evs = ev_all(w, [c.render(base_tmpl, t) for t in chunk], fuel, jid="c04a")
+                stats["stmts"] += len(chunk)
                 for t, e in zip(chunk, evs):
                     base_evs[t] = e
                     why = bad_reason(e)
@@ -498,6 +518,12 @@ def process(sh, w, c, tuples, isfn, stats, plan):
                             stats["timeouts"] += 1
                         sh.seen(case_text(c, t), nontrivial=False)
                         record_bad(sh, c, t, why, c.render(base_tmpl, t))
+                    elif keep_raising is not None and e.get("o") != "ok":
+                        if stats.get("raising_kept", 0) < keep_raising:
+                            stats["raising_kept"] = stats.get("raising_kept", 0) + 1
+                            todo.append((t, kl))
+                        else:
+                            sh.count("candidates-dropped:plain-call-raises")
                     else:
                         todo.append((t, kl))
         # pass 2: all forms (the plain call again, so that every form of a tuple sees the same base environment)
@@ -506,7 +532,15 @@ def process(sh, w, c, tuples, isfn, stats, plan):
             part = [t for t, k2 in todo if k2 == kl]
             w.cpu_budget = cpu
             i = 0
+            if time.time() > stats["deadline"] and part:
+                sh.excluded += len(part)
+                sh.count("excluded:unit-time-budget-exhausted", len(part))
+                continue
             while i < len(part):
+                if time.time() > stats["deadline"]:
+                    sh.excluded += len(part) - i
+                    sh.count("excluded:unit-time-budget-exhausted", len(part) - i)
+                    break
                 stmts, spans = [], []
                 while i < len(part) and len(stmts) < BATCH:
                     fs = forms_for(c, part[i], isfn)
@@ -525,6 +559,9 @@ def process(sh, w, c, tuples, isfn, stats, plan):
         if redo:
             sh.count("confirm:rerun-in-fresh-env", len(redo))
             for t, fs, fuel, cpu in redo:
+                if time.time() > stats["deadline"] + 30:
+                    sh.inconc("unit-time-budget", case_text(c, t))
+                    continue
                 w.cpu_budget = cpu
                 # one job per tuple = a new base environment (prelude re-run) used by this tuple alone
                 evs = ev_all(w, [s for _, s in fs], fuel, jid="c04c")
@@ -585,9 +622,12 @@ def tuples_for(ctx, c):
                     seen.add(t)
                     pairs.append(t)
     if 3 in c.arities:
+        # candidates: 4x the wanted number, a third each from the reduced pool, the whole pool and the small
+        # numbers; process(keep_raising=...) keeps every candidate whose plain call returns and a bounded
+        # number of the raising ones (a purely random triple almost never type-checks)
         seen = set()
-        for k in range(ctx.plan["triples"]):
-            src = Q if k % 2 == 0 else P
+        for k in range(4 * ctx.plan["triples"]):
+            src = (Q, P, SMALL_NUMS)[k % 3]
             t = (r.choice(src), r.choice(src), r.choice(src))
             if t not in seen:
                 seen.add(t)
@@ -612,15 +652,24 @@ def shard(ctx, si, n):
         callables += [Callable(k, tok, setup, ar) for (k, tok, setup, ar) in USER_CALLABLES]
         units = [(ci, k) for ci in range(len(callables)) for k in range(K)]
         P = pool.NAMES
+        # the prelude (pool + user-defined callables) must build without error, otherwise every form would
+        # "agree" by raising a name error
+        chk = w.run({"id": "pre", "kind": "eval", "prelude": PRELUDE, "stmts": ["[u1, u2, u3, memf, fanb, Foo]"],
+                     "fresh_each": True}, cpu_budget=30)
+        if chk["result"].get("prelude_err") or not chk["events"] or chk["events"][0].get("o") != "ok":
+            raise RuntimeError("C04 prelude broken: %r %r" % (chk["result"], chk["events"][:1]))
+        if si == 0:
+            sh.sample({"callables": len(callables), "forms": {str(k): [n for n, _ in v] for k, v in FORMS.items()},
+                       "conditional_forms": [F_LSEC[0], F_RSEC[0], F_OPASSIGN[0]]})
         for ui in range(si, len(units), n):
             ci, k = units[ui]
             c = callables[ci]
             t0 = time.time()
             isfn = {}
-            stats = {"stmts": 0, "timeouts": 0}
+            stats = {"stmts": 0, "timeouts": 0, "deadline": t0 + ctx.plan["unit_wall"]}
             if k == 0:
                 sh.count("callables_swept")
-                sh.count("callables_swept:" + ("user-defined" if c.key != c.tok or c.tok in ("Foo", "fa", "fb") else "global"))
+                sh.count("callables_swept:" + ("user-defined" if c.key != c.tok or c.tok in ("Foo", "fa", "fb", "Bar") else "global"))
             if k == 0 and 1 in c.arities:
                 base = process(sh, w, c, [(a,) for a in P], isfn, stats, ctx.plan)
                 for (a,), e in base.items():
@@ -635,14 +684,19 @@ def shard(ctx, si, n):
             pairs, triples = tuples_for(ctx, c)
             process(sh, w, c, pairs[k::K], isfn, stats, ctx.plan)
             if k == K - 1:
-                process(sh, w, c, triples, isfn, stats, ctx.plan)
+                process(sh, w, c, triples, isfn, stats, ctx.plan, keep_raising=ctx.plan["triples"] // 2)
             dt = time.time() - t0
+            if dt > 1.5:
+                sh.count("DEBUG_unit_ds:%s" % c.key, int(dt * 10))
+                sh.count("DEBUG_unit_timeouts:%s" % c.key, stats["timeouts"])
             if dt > (6 if ctx.tier == "quick" else 60):
                 sh.notes.append("slow unit %s part %d: %.1fs" % (c.key, k, dt))
             sh.count("statements_evaluated", stats["stmts"])
-        if si == 0:
-            sh.sample({"callables": len(callables), "forms": {str(k): [n for n, _ in v] for k, v in FORMS.items()},
-                       "conditional_forms": [F_LSEC[0], F_RSEC[0], F_OPASSIGN[0]]})
     finally:
         w.close()
+    import resource
+    ru, rc = resource.getrusage(resource.RUSAGE_SELF), resource.getrusage(resource.RUSAGE_CHILDREN)
+    sh.count("DEBUG_cpu_py_user_ms", int(ru.ru_utime * 1000)); sh.count("DEBUG_cpu_py_sys_ms", int(ru.ru_stime * 1000))
+    sh.count("DEBUG_cpu_child_user_ms", int(rc.ru_utime * 1000)); sh.count("DEBUG_cpu_child_sys_ms", int(rc.ru_stime * 1000))
+    sh.count("DEBUG_restarts", w.restarts)
     return sh
